@@ -10,6 +10,18 @@ BASE_NOTE = ("Trusted base: rustc's MIR for the current source (nightly, -Zunpre
              "the run inconclusive (exit 2).")
 
 CHECKS = {
+    "C01": dict(
+        text="Bounded model checking of the struct layer API from its MIR: BuildContext::cached_layer / uncached_layer down to "
+             "handle_layer, create_layer, read/write/delete_layer, replace_layer_*, remove_dir_recursively, read/write_toml_file, the "
+             "derived (de)serializers of LayerContentMetadata/LayerTypes and the four IntoAction impls are executed on an arbitrary "
+             "layers directory satisfying the layer invariant (one inductive step, so histories of any length), with the callbacks' "
+             "decisions, return forms and errors as branch points. Per path the solver decides: reported state == decision table of the "
+             "statement, callbacks see the stored metadata, toml declares exactly the requested flags, restored keeps every node, empty "
+             "leaves no file/metadata/SBOM, the bystander layer is untouched, and the invariant is re-established.",
+        design_ref="DESIGN.md §5 C01",
+        technique="symbolic execution of rustc MIR (mirsym) over a symbolic file-system state + SMT (z3); one inductive step from the layer invariant; witness replay on a real temp dir",
+        note="Layer invariant and metadata law (from_str(to_string(m)) == Ok(m)) assumed; permission bits/symlinks are C11's subject, I/O "
+             "faults C12's; toml text layer abstracted to trees. " + BASE_NOTE),
     "C09": dict(
         text="Bounded model checking of the real parsing code from its MIR: the four libcnb_newtype! expansions (from_str, Deserialize, "
              "derived Serialize, Display), verify_regex's decision logic, BuildpackVersion/BuildpackApi try_from and Display are "
